@@ -47,3 +47,43 @@ Example C02_nan_exception_typed :
   /\ td_fal (snd (type_info_inst (EOp OSub inf inf) ts_default)) = true
   /\ fst (w_run [EOp OSub inf inf] (VObj [])) = Failed.
 Proof. vm_compute. auto. Qed.
+
+(* ---------- what is proved: no failure on the straight-line fragment (Model/TypeFragment.v) ---------- *)
+
+From VRL Require Import Model.KindDomains Model.TypeFragment Proofs.TypeSoundProofs.
+
+Lemma binop_inst_eq2 : forall x y, exists b, binop_inst OEq x y = Some (VBool b).
+Proof. intros x y. eexists. reflexivity. Qed.
+Lemma binop_inst_ne2 : forall x y, exists b, binop_inst ONe x y = Some (VBool b).
+Proof. intros x y. eexists. reflexivity. Qed.
+
+(* a statement of the fragment (an effect-free expression or its assignment, see Properties/C01.v), typed
+   in a state the run-time state conforms to, never ends in an error, an abort, a return or a panic —
+   for every function table *)
+Theorem C02_statement_never_errors_partial :
+  forall (F : fname -> list value -> option value) (T : fname -> list tdef -> list tdef -> tdef)
+         (e : expr) (G : tstate) (s : state) (c : err) (s' : state),
+  stmt_ok binop_inst T e G = true -> conf G s -> eval F binop_inst e s <> (inr c, s').
+Proof.
+  intros F T e G s c s' Hok Hc.
+  destruct (stmt_sound F binop_inst T binop_inst_eq2 binop_inst_ne2 e G s Hok Hc) as (v & s1 & Hev & _).
+  rewrite Hev. discriminate.
+Qed.
+Print Assumptions C02_statement_never_errors_partial.
+
+(* C02 for straight-line programs of the fragment: whatever the conforming event and metadata, the run
+   succeeds (no `Failed`, no abort, no panic).  The `!` on a non-boolean and the failing arithmetic that
+   make programs fallible are outside the fragment; every statement is judged in the type state the
+   compiler has before it, so the theorem does use the compiler's kinds (e.g. for `!x`). *)
+Theorem C02_straightline_never_fails_partial :
+  forall (es : list expr) (ek mk : kind) (event meta : value),
+  es <> [] -> stmts_ok binop_inst T_inst es (ts0 ek mk) = true ->
+  member event ek = true -> wf_value event = true -> member meta mk = true -> wf_value meta = true ->
+  exists v, fst (run_typed es (st0 [] event meta)) = Success v.
+Proof.
+  intros es ek mk event meta Hne Hok He Hwe Hm Hwm.
+  destruct (run_sound F_typed binop_inst T_inst binop_inst_eq2 binop_inst_ne2 es ek mk event meta Hne Hok He Hwe Hm Hwm)
+    as (v & s' & Hr & _).
+  exists v. unfold run_typed. rewrite Hr. reflexivity.
+Qed.
+Print Assumptions C02_straightline_never_fails_partial.
